@@ -683,27 +683,66 @@ func errorsAreValuesRule(r *Run, rule string) {
 			r.Bad(rule, f.Name(), "error list returned iff non-empty", w.Pos(f.Decl.Pos()), "Parse must report the accumulated syntax errors exactly when there are some")
 		}
 	}
-	// the Pratt entry records an error when it has no prefix function
+	// the Pratt entry records an error when it has no prefix function: on every path on which the lookup
+	// in the prefix registry came back empty (ok == false, or a nil function) an error is recorded
 	pratt := pm.pratt
 	okNoPrefix := false
-	inspectBody(pratt.Decl.Body, false, func(n ast.Node) bool {
-		ifs, ok := n.(*ast.IfStmt)
-		if !ok {
-			return true
-		}
-		if be, ok := unparen(ifs.Cond).(*ast.BinaryExpr); ok && be.Op == token.EQL && isNilIdent(info, be.Y) {
-			appends := false
-			for _, c := range callsIn(ifs.Body, false) {
-				if fi := w.FuncOf(calleeOf(info, c)); fi != nil && appendsError(pm, fi) {
-					appends = true
+	if fn := w.SSAFunc(pratt); fn != nil {
+		paths, complete := walkPathsUnrolled(fn, nil, nil, 50000)
+		nMiss, allRecorded := 0, complete
+		for _, p := range paths {
+			miss := false
+			for _, d := range p.decisions {
+				var lk *ssa.Lookup
+				isMiss := false
+				if ex, ok := d.cond.(*ssa.Extract); ok {
+					if l, ok := ex.Tuple.(*ssa.Lookup); ok && ex.Index == 1 && !d.truth {
+						lk, isMiss = l, true
+					}
+				}
+				if x, op, ok := isNilCompare(p, d.cond); ok && d.truth == (op == token.EQL) {
+					switch y := p.resolve(x).(type) {
+					case *ssa.Lookup:
+						lk, isMiss = y, true
+					case *ssa.Extract:
+						if l, ok := y.Tuple.(*ssa.Lookup); ok && y.Index == 0 {
+							lk, isMiss = l, true
+						}
+					}
+				}
+				if lk == nil || !isMiss {
+					continue
+				}
+				// a registry of parse functions: a map field of the parser whose values are functions
+				if mt, ok := lk.X.Type().Underlying().(*types.Map); ok {
+					// (the prefix registry: functions without operand; a missing infix function just ends the expression)
+					if sg, isFn := mt.Elem().Underlying().(*types.Signature); isFn && sg.Params().Len() == 0 {
+						miss = true
+					}
 				}
 			}
-			if appends {
-				okNoPrefix = true
+			if !miss {
+				continue
+			}
+			nMiss++
+			recorded := false
+			for _, ev := range p.events {
+				if c, ok := ev.(*ssa.Call); ok {
+					if cal := c.Call.StaticCallee(); cal != nil {
+						if obj, ok := cal.Object().(*types.Func); ok {
+							if fi := w.FuncOf(obj); fi != nil && appendsError(pm, fi) {
+								recorded = true
+							}
+						}
+					}
+				}
+			}
+			if !recorded {
+				allRecorded = false
 			}
 		}
-		return true
-	})
+		okNoPrefix = nMiss > 0 && allRecorded
+	}
 	if okNoPrefix {
 		r.Ok(rule, pratt.Name(), "missing prefix function is an error", w.Pos(pratt.Decl.Pos()), "records 'no prefix parse function' before giving up")
 	} else {
